@@ -149,7 +149,7 @@ def apply_mask(
         # The mask selects along the leading (batch) axes of the items.
         masks = np.reshape(masks, masks.shape + (1,) * (items.ndim - masks.ndim))
         return np.where(masks, items, replace_false_with)
-      elif hasattr(items, '__array__'):
+      elif hasattr(items, '__array__') or masks.ndim != 1:
         return np.asarray(items)[masks]
       else:
         # A list / tuple column is filtered as it is (its rows can be ragged or
